@@ -29,7 +29,12 @@ for sid in ids:
     m = json.load(open(os.path.join(d, "meta.json")))
     m["recheck"] = {"check_rc": crc, "detected": det}
     json.dump(m, open(os.path.join(d, "meta.json"), "w"), indent=1)
-    print("%s detected=%s rc=%s" % (sid, det, crc), flush=True)
+    import re
+    mv = re.findall(r"(\d+) violations", cout)
+    m["recheck"]["violations"] = int(mv[-1]) if mv else -1
+    m["recheck"]["seed"] = os.environ.get("VERIF_SEED", "default")
+    json.dump(m, open(os.path.join(d, "meta.json"), "w"), indent=1)
+    print("%s detected=%s rc=%s violations=%s seed=%s" % (sid, det, crc, m["recheck"]["violations"], m["recheck"]["seed"]), flush=True)
     bad += 0 if det else 1
     sh("rm -rf %s/evidence/replays" % VERIF)
 print("not detected:", bad)
